@@ -150,11 +150,17 @@ def attach(ctx, n_cases=40, prove=True):
     moves = snaps = 0
     fails, oracle_fails = [], []
     verdicts = {}
+    kinds = {}
     for i, (c, adds) in enumerate(cases):
         r = trace.run_case(exe, c, wd, "m%04d" % i, timeout=60)
         v = (r["verdict"] or "NONE rc=%s %s" % (r["rc"], r["out"][-200:])).split()[0]
         verdicts[v] = verdicts.get(v, 0) + 1
         b = mc.machine_block(c, r["trace_text"])
+        for l in b[0]:
+            w = l.split()
+            if w and w[0] in ("move", "autopop", "stealfind", "passhand"):
+                k = w[2] if w[0] == "move" else w[0] if not (w[0] == "passhand" and w[3] == "-") else "passhand(nothing popped)"
+                kinds[k] = kinds.get(k, 0) + 1
         res = mc.validate(drv, [b])[0]
         o = mc.oracle_single_place(r["trace_text"])
         # final counter: the last `get`-free way is the var.read events; use lost-update detection
@@ -174,7 +180,8 @@ def attach(ctx, n_cases=40, prove=True):
     vfail, vdis, vlines = victim_tie(ctx, drv)
     summ = {"victim_draws_compared": vlines, "victim_disagreements": vdis, "victim_oracle_failures": len(vfail),
             "machine_cases": len(cases), "machine_moves_replayed": moves, "machine_snapshots_compared": snaps,
-            "machine_disagreements": len(fails), "machine_oracle_failures": len(oracle_fails), "machine_verdicts": verdicts}
+            "machine_disagreements": len(fails), "machine_oracle_failures": len(oracle_fails), "machine_verdicts": verdicts,
+            "machine_directives_by_kind": kinds, "run_queue_capacity_in_force": queue_capacity()}
     ctx.cov.setdefault("correspondence", {})["machine"] = summ
     ctx.cov["trusted_base"] += ["whole-machine tie: harness/lib_interp.c machine snapshots (msnap), tools/machine_common.py (moves read off "
                                 "the trace), ocaml/driver_Machine.ml, extraction of coq/Machine/MachineModel.v (ExtrOcamlBasic only)"]
@@ -198,6 +205,18 @@ def attach(ctx, n_cases=40, prove=True):
         ctx.violation("proof", "machine theorem(s) no longer check: " + ", ".join(broken),
                       {"theorem_or_correspondence": ", ".join(broken)}, found=False)
     return summ
+
+
+def queue_capacity():
+    """INITIAL_QUEUE_SIZE of the tree under check (the fixed length of every run queue; no property promises a
+    capacity, the evidence records the one in force)"""
+    import re
+    try:
+        t = open(os.path.join(vlib.REPO, "src", "myth_config.h"), errors="replace").read()
+        m = re.search(r"#define\s+INITIAL_QUEUE_SIZE\s+(\S+)", t)
+        return m.group(1) if m else "?"
+    except OSError:
+        return "?"
 
 
 def victim_tie(ctx, drv):
